@@ -53,16 +53,29 @@ Subs(f) == CASE f[1] = "not" -> AddAll(Subs(f[2]), <<f>>, 1)
              [] OTHER -> <<f>>
 IndexOf(x, s) == CHOOSE i \in 1..Len(s) : s[i] = x
 DigitStr == <<"0", "1", "2", "3", "4", "5", "6", "7", "8", "9">>
+\* the encoder's fresh-name scheme: x1, x2, ...
 XName(i) == IF i < 10 THEN "x" \o DigitStr[i + 1] ELSE "x" \o DigitStr[(i \div 10) + 1] \o DigitStr[(i % 10) + 1]
-\* definition of the variable of sub-formula g (as a formula over the x's and the atoms) and its clauses
-DefOf(g, subs) ==
-  LET X(h) == <<"atom", XName(IndexOf(h, subs))>> IN
+\* ---- the ATOM NAME SPACE is a dimension of the formula universe: an atom of the input may itself carry a name of the
+\* scheme.  Fresh names = the first n names of the scheme that are NOT in `used` (x1, x2, ... when there is no clash).
+RECURSIVE NextFree(_, _)
+NextFree(i, used) == IF XName(i) \in used THEN NextFree(i + 1, used) ELSE i
+\* acc = the names chosen so far, last = index of the last one
+RECURSIVE FreshFrom(_, _, _, _)
+FreshFrom(n, used, acc, last) == IF Len(acc) = n THEN acc
+                                 ELSE LET i == NextFree(last + 1, used) IN FreshFrom(n, used, Append(acc, XName(i)), i)
+FreshNames(n, used) == FreshFrom(n, used, <<>>, 0)
+\* names the reference gives to the n sub-formulas of f
+RefNames(f, n) == FreshNames(n, AtomsOf(f))
+\* definition of the variable of sub-formula g (as a formula over the new variables and the atoms) and its clauses;
+\* the constants true / false are leaves with a definition  x <-> true  and the unit clause  x  (resp. ~x)
+DefOf(g, subs, nm) ==
+  LET X(h) == <<"atom", nm[IndexOf(h, subs)]>> IN
   CASE g[1] = "not" -> <<"not", X(g[2])>>
     [] g[1] \in BinOps -> <<g[1], X(g[2]), X(g[3])>>
     [] OTHER -> g
-ClausesOf(g, subs) ==
-  LET x == XName(IndexOf(g, subs))
-      N(h) == XName(IndexOf(h, subs)) IN
+ClausesOf(g, subs, nm) ==
+  LET x == nm[IndexOf(g, subs)]
+      N(h) == nm[IndexOf(h, subs)] IN
   CASE g[1] = "not" -> << << <<x, TRUE>>, <<N(g[2]), TRUE>> >>, << <<x, FALSE>>, <<N(g[2]), FALSE>> >> >>
     [] g[1] = "and" -> << << <<x, FALSE>>, <<N(g[2]), TRUE>> >>, << <<x, FALSE>>, <<N(g[3]), TRUE>> >>,
                           << <<N(g[2]), FALSE>>, <<N(g[3]), FALSE>>, <<x, TRUE>> >> >>
@@ -72,14 +85,73 @@ ClausesOf(g, subs) ==
                           << <<x, FALSE>>, <<N(g[2]), FALSE>>, <<N(g[3]), TRUE>> >> >>
     [] g[1] = "iff" -> << << <<x, FALSE>>, <<N(g[2]), FALSE>>, <<N(g[3]), TRUE>> >>, << <<x, FALSE>>, <<N(g[2]), TRUE>>, <<N(g[3]), FALSE>> >>,
                           << <<x, TRUE>>, <<N(g[2]), TRUE>>, <<N(g[3]), TRUE>> >>, << <<x, TRUE>>, <<N(g[2]), FALSE>>, <<N(g[3]), FALSE>> >> >>
+    [] g[1] = "true" -> << << <<x, TRUE>> >> >>
+    [] g[1] = "false" -> << << <<x, FALSE>> >> >>
     [] OTHER -> <<>>
 RECURSIVE Concat(_, _)
 Concat(ss, i) == IF i > Len(ss) THEN <<>> ELSE ss[i] \o Concat(ss, i + 1)
-\* reference encoding of f:  defs = << x_i <-> definition >>,  cnf = << <<x_top>> >> \o clauses of every definition
+\* structural equality of two well-formed formulas (the head decides the shape: never compares a string with a tuple)
+RECURSIVE SameF(_, _)
+SameF(f, g) == /\ f[1] = g[1] /\ Len(f) = Len(g)
+               /\ CASE f[1] = "atom" -> f[2] = g[2]
+                    [] f[1] = "not" -> SameF(f[2], g[2])
+                    [] f[1] \in BinOps -> SameF(f[2], g[2]) /\ SameF(f[3], g[3])
+                    [] OTHER -> TRUE
+\* g with every occurrence of the sub-formula r replaced by the variable v (top-down: what rewriting g right-to-left with the
+\* equation  v <-> r  does)
+RECURSIVE Replace(_, _, _)
+Replace(g, r, v) == IF SameF(g, r) THEN <<"atom", v>>
+                    ELSE CASE g[1] = "not" -> <<"not", Replace(g[2], r, v)>>
+                           [] g[1] \in BinOps -> <<g[1], Replace(g[2], r, v), Replace(g[3], r, v)>>
+                           [] OTHER -> g
+\* ... with the definitions one after the other, in their order (sub-formulas first)
+RECURSIVE RewriteAll(_, _, _)
+RewriteAll(g, defs, i) == IF i > Len(defs) THEN g ELSE RewriteAll(Replace(g, defs[i][3], defs[i][2][2]), defs, i + 1)
+\* the clauses of a formula that is a conjunction of disjunctions of literals.  (With fresh names the rewritten formula is
+\* the top variable, invariant RefTopIsVariable; anything else is kept total for the mutants: an unreadable literal "?")
+RECURSIVE DisjLits(_)
+DisjLits(g) == CASE g[1] = "or" -> DisjLits(g[2]) \o DisjLits(g[3])
+                 [] g[1] = "atom" -> << <<g[2], TRUE>> >>
+                 [] g[1] = "not" /\ g[2][1] = "atom" -> << <<g[2][2], FALSE>> >>
+                 [] OTHER -> << <<"?", TRUE>> >>
+RECURSIVE TopClauses(_)
+TopClauses(g) == IF g[1] = "and" THEN TopClauses(g[2]) \o TopClauses(g[3]) ELSE << DisjLits(g) >>
+\* reference encoding of f as a machine:  defs = << x_i <-> definition >> (one per sub-formula, x_i fresh);  top = f rewritten
+\* with the definitions (the variable of f itself);  cnf = clauses of top \o clauses of every definition
 RefEncode(f) ==
-  LET subs == Subs(f) IN
-  [subs |-> subs,
-   defs |-> [i \in 1..Len(subs) |-> <<"iff", <<"atom", XName(i)>>, DefOf(subs[i], subs)>>],
-   cnf |-> << << <<XName(Len(subs)), TRUE>> >> >> \o Concat([i \in 1..Len(subs) |-> ClausesOf(subs[i], subs)], 1)]
+  LET subs == Subs(f)
+      nm == RefNames(f, Len(subs))
+      defs == [i \in 1..Len(subs) |-> <<"iff", <<"atom", nm[i]>>, DefOf(subs[i], subs, nm)>>]
+      top == RewriteAll(f, defs, 1) IN
+  [subs |-> subs, names |-> nm, defs |-> defs, top |-> top,
+   cnf |-> TopClauses(top) \o Concat([i \in 1..Len(subs) |-> ClausesOf(subs[i], subs, nm)], 1)]
+
+\* ---------------------------------------------------------------- the definitional reading of an encoding
+IsDef(h) == h[1] = "iff" /\ h[2][1] = "atom"
+DefVar(h) == h[2][2]
+\* no definition depends (through other definitions) on its own variable: the definitions can be put in an order in which
+\* every right side mentions only variables defined earlier (and undefined ones)
+RECURSIVE AcyclicDefs(_, _)
+AcyclicDefs(hs, I) ==
+  IF I = {} THEN TRUE
+  ELSE LET open == { DefVar(hs[i]) : i \in I }
+           ready == { i \in I : AtomsOf(hs[i][3]) \cap open = {} } IN
+       IF ready = {} THEN FALSE ELSE AcyclicDefs(hs, I \ ready)
+\* hs (well-formed formulas) are DEFINITIONS of fresh variables over the formula f:  equations  v <-> rhs  whose left sides
+\* are pairwise distinct variables that do not occur in f and do not depend on themselves.  Exactly then every assignment
+\* of the atoms of f extends to the v's so that all of hs hold: the hypotheses add nothing to f (a conservative extension),
+\* which is what makes  hs, f |- cnf  an ENCODING of f.
+DefsFresh(hs, f) ==
+  LET I == 1..Len(hs) IN
+  /\ \A i \in I : IsDef(hs[i])
+  /\ \A i, j \in I : i # j => DefVar(hs[i]) # DefVar(hs[j])
+  /\ \A i \in I : DefVar(hs[i]) \notin AtomsOf(f)
+  /\ AcyclicDefs(hs, I)
+\* what DefsFresh is for, decided by brute force: every model of f extends to a model of hs
+Conservative(hs, f) ==
+  LET A == AtomsOf(f)
+      B == (UNION { AtomsOf(hs[i]) : i \in 1..Len(hs) }) \ A IN
+  \A s \in [A -> BOOLEAN] : Eval(f, s) => \E t \in [B -> BOOLEAN] : LET st == [x \in A \cup B |-> IF x \in A THEN s[x] ELSE t[x]] IN
+                                                                      \A i \in 1..Len(hs) : Eval(hs[i], st)
 DistinctClauses(cnf) == Cardinality({ LitSet(cnf[k]) : k \in 1..Len(cnf) })
 =============================================================================
